@@ -152,3 +152,98 @@ def explore_false_child(g, child_pt, same_child, max_visits=2, limit=20000):
     finally:
         sys.setrecursionlimit(old)
     return bad
+
+
+def feasible_reach(g, starts, targets, avoid=(), env0=None, limit=20000):
+    """Is one of `targets` reachable from `starts` along a path that is feasible with respect to the boolean
+    locals of the root function (assignments of constants / boolean expressions are tracked, branch conditions
+    are evaluated three-valued, definitely-false edges are pruned)?  Returns the path or None."""
+    f = g.func
+    tids = {t.id for t in targets}
+    aids = {a.id for a in avoid}
+    seen = set()
+    steps = [0]
+    stack = [(s, dict(env0 or {}), [s]) for s in starts]
+    while stack:
+        p, env, path = stack.pop()
+        steps[0] += 1
+        if steps[0] > limit:
+            return path
+        key = (p.id, tuple(sorted(env.items())))
+        if key in seen or p.id in aids:
+            continue
+        seen.add(key)
+        if p.id in tids:
+            return path
+        n = p.n
+        if n is not None and p.f is f and p.ctx is g.root_ctx:
+            for (vid, strong, vx) in defs_in_node(f, n):
+                if n['k'] == 'declstmt':
+                    d = [d for d in n['decls'] if d['id'] == vid][0]
+                    if 'init' in d and is_bool_var_type(d['t']):
+                        env = dict(env)
+                        env[vid] = eval3(f, d['init'], env, {})
+                elif n['k'] == 'binop' and n['op'] == '=':
+                    if is_bool_var_type(f.nodes[n['lhs']].get('t') or ''):
+                        env = dict(env)
+                        env[vid] = eval3(f, n['rhs'], env, {})
+                elif vid in env:
+                    env = dict(env)
+                    env[vid] = U
+        for (q, lab) in p.succ:
+            if lab and isinstance(lab[0], int) and lab[1] is f and p.ctx is g.root_ctx:
+                cv = eval3(f, lab[0], env, {})
+                if cv is not U and cv != lab[2]:
+                    continue
+            stack.append((q, env, path + [q] if len(path) < 80 else path))
+    return None
+
+
+def feasible_armed_reach(g, arm, disarm, targets, limit=40000):
+    """Explore feasible paths from the function entry (boolean locals tracked as in feasible_reach).  Passing a
+    point of `arm` arms the walk, passing one of `disarm` disarms it; returns a path that reaches a point of
+    `targets` while armed, or None."""
+    f = g.func
+    arm_ids = {p.id for p in arm}
+    dis_ids = {p.id for p in disarm}
+    tids = {t.id for t in targets}
+    seen = set()
+    stack = [(g.entry, {}, False, [g.entry])]
+    steps = 0
+    while stack:
+        p, env, armed, path = stack.pop()
+        steps += 1
+        if steps > limit:
+            return None
+        key = (p.id, tuple(sorted(env.items())), armed)
+        if key in seen:
+            continue
+        seen.add(key)
+        if armed and p.id in tids:
+            return path
+        if p.id in dis_ids:
+            armed = False
+        n = p.n
+        if n is not None and p.f is f and p.ctx is g.root_ctx:
+            for (vid, strong, vx) in defs_in_node(f, n):
+                if n['k'] == 'declstmt':
+                    d = [d for d in n['decls'] if d['id'] == vid][0]
+                    if 'init' in d and is_bool_var_type(d['t']):
+                        env = dict(env)
+                        env[vid] = eval3(f, d['init'], env, {})
+                elif n['k'] == 'binop' and n['op'] == '=':
+                    if is_bool_var_type(f.nodes[n['lhs']].get('t') or ''):
+                        env = dict(env)
+                        env[vid] = eval3(f, n['rhs'], env, {})
+                elif vid in env:
+                    env = dict(env)
+                    env[vid] = U
+        if p.id in arm_ids:
+            armed = True
+        for (q, lab) in p.succ:
+            if lab and isinstance(lab[0], int) and lab[1] is f and p.ctx is g.root_ctx:
+                cv = eval3(f, lab[0], env, {})
+                if cv is not U and cv != lab[2]:
+                    continue
+            stack.append((q, env, armed, path + [q] if len(path) < 80 else path))
+    return None
